@@ -35,6 +35,8 @@ def kinds(k):
                      nontrivial=f"cert_nontrivial {k}"),
         "static": dict(imports=IMPORTS, type="static_case", mismatch="static_mismatches",
                        nontrivial="static_nontrivial"),
+        "join": dict(imports=IMPORTS, type="join_case", mismatch="join_mismatches",
+                     nontrivial="join_nontrivial"),
     }
 
 
@@ -208,6 +210,7 @@ def make_descs(tier, seed, which):
     for d in descs:
         yield dict(d, _kind="cert", which=which)
         yield dict(d, _kind="static", which=which)
+        yield dict(d, _kind="join", which=which)
 
 
 _CACHE = {}
@@ -277,6 +280,9 @@ def run_case(desc):
     if desc["_kind"] == "cert":
         obs["nobs"] = len(obs_units(units, cert, desc["which"]))
         return obs
+    if desc["_kind"] == "join":
+        obs["join"] = run_join(co, units, cert, desc["which"])
+        return obs
     # static: what the real functions say
     ex = []
     for p in obs_units(units, cert, desc["which"]):
@@ -304,11 +310,117 @@ def run_case(desc):
     return obs
 
 
+def machine_obs(units, cert, which):
+    """the observations M_WithMachine.obs offers in certified states: (running, lasti, stack top-first)"""
+    out = []
+    for p, u in enumerate(units):
+        if cert[p] is None:
+            continue
+        st = cert[p][0]
+        k = u[0]
+        if which == "susp":
+            if k == "IYield" and st:
+                out.append((False, p, st[1:]))
+            continue
+        if k in ("ICall", "IBeforeWith", "IForIter"):
+            out.append((True, p, st))
+        elif k == "IWithExceptStart":
+            if len(st) > 3 and isinstance(st[3], tuple) and st[3][0] == "X":
+                out.append((True, p, st))
+        elif k == "ISend":
+            out.append((True, p + 1, st))
+        elif k == "IGetAwaitable" and st and st[0] == "O":
+            out.append((True, p, st))
+        elif (k == "ICondJump" and u[2]) or (k == "IGen" and u[3]):
+            out.append((True, p, st))
+    return out
+
+
+_SNIP = None
+
+
+class _Mgr:
+    """dummy manager standing for 'the manager entered at with-site s'"""
+    def __init__(self, site):
+        self.site = site
+
+    def __exit__(self, *a):
+        return None
+
+    async def __aexit__(self, *a):
+        return None
+
+
+def run_join(co, units, cert, which):
+    """the real _contexts_active_by_trickery on every certified observation: value stack taken
+    from the certificate (ctypes reads replaced), exception-table walk and trim executed from
+    inspect_frame's own source (harness/snippets.py)"""
+    global _SNIP
+    from stackscope import _lowlevel as ll
+    if _SNIP is None:
+        from . import snippets
+        _SNIP = snippets.load()
+    trim, blocks = _SNIP
+    mgrs = {}
+    res = []
+    saved = ll.inspect_frame
+    try:
+        for running, lasti, st in machine_obs(units, cert, which):
+            stack = []
+            for v in reversed(st):                       # bottom first, as FrameDetails.stack
+                if isinstance(v, tuple) and v[0] == "X":
+                    m = mgrs.setdefault(v[1], _Mgr(v[1]))
+                    stack.append(m.__aexit__ if units[v[1]][1] else m.__exit__)
+                else:
+                    stack.append(object())
+            depth = trim(co, 2 * lasti)
+            bl = blocks(co, 2 * lasti)
+            vis = stack[:depth] if running else stack
+            details = ll.FrameDetails(blocks=list(bl), stack=vis)
+            ll.inspect_frame = lambda frame, _d=details: _d
+            stub = types.SimpleNamespace(f_code=co, f_lasti=2 * lasti, f_locals={})
+            with warnings.catch_warnings(record=True) as wl:
+                warnings.simplefilter("always")
+                try:
+                    ctxs = ll._contexts_active_by_trickery(stub)
+                    if any(issubclass(w.category, ll.InspectionWarning) for w in wl):
+                        view = "warn"
+                    else:
+                        view = [[None if c.is_exiting else getattr(c.obj, "site", -1), bool(c.is_async), bool(c.is_exiting)]
+                                for c in ctxs]
+                except Exception as e:  # noqa: BLE001
+                    view = "raise:" + type(e).__name__
+            res.append({"running": running, "lasti": lasti, "stack": [list(v) if isinstance(v, tuple) else v for v in st],
+                        "view": view, "blocks": [[b.handler // 2, b.level] for b in bl], "trim": depth})
+    finally:
+        ll.inspect_frame = saved
+    return res
+
+
+def join_coq(units, table, obs):
+    outs = []
+    for o in obs:
+        st = clist([W.val_coq(tuple(v) if isinstance(v, list) else v) for v in o["stack"]])
+        v = o["view"]
+        if v == "warn":
+            pv = "(Some None)"
+        elif isinstance(v, str):
+            pv = "None"
+        else:
+            pv = "(Some (Some %s))" % clist(["(%s, %s, %s)" % (copt(None if x[0] is None else str(x[0])), cbool(x[1]), cbool(x[2]))
+                                             for x in v])
+        bl = "(Some %s)" % clist(["(%d, %d)" % (h, l) for h, l in o["blocks"]])
+        outs.append("(%s, %d, %s, %s, %s, %d)" % (cbool(o["running"]), o["lasti"], st, pv, bl, o["trim"]))
+    return "(%s,\n %s,\n %s)" % (W.code_coq(units), W.table_coq(table), clist(outs))
+
+
 def coq_case(desc, obs):
     if "machine_error" in obs:
         return None
     co, _ = load_code(desc)
     units, table = W.abstract_code(co)
+    if desc["_kind"] == "join":
+        return join_coq(units, table, obs["join"])
     if desc["_kind"] == "cert":
         cert = W.certificate(units, table)
         return "(%s,\n %s,\n %s)" % (W.code_coq(units), W.table_coq(table), W.cert_coq(cert))
@@ -331,6 +443,12 @@ def direct_oracle(desc, obs):
                 "CPython model is incomplete for it or the compiler broke an assumption" % obs["machine_error"])
     if obs.get("raised"):
         return "currently_exiting_context raised: %r" % obs["raised"][:3]
+    if desc["_kind"] == "join":
+        bad = [o for o in obs.get("join", []) if isinstance(o["view"], str)]
+        if bad:
+            return ("_contexts_active_by_trickery %s on a certified observation of compiler output (lasti unit %d)"
+                    % (bad[0]["view"], bad[0]["lasti"]))
+        return None
     if desc["_kind"] == "static" and obs.get("winfo") is None and W.has_with(load_code(desc)[0]):
         return "analyze_with_blocks raised on compiler output: %s" % obs.get("winfo_error")
     if desc["_kind"] == "static" and any(e[1] == "warn" for e in obs.get("exiting", [])):
